@@ -89,7 +89,7 @@ _STATS = re.compile(
 )
 # PrintT pretty-prints long tuples over several lines
 _VERDICT = re.compile(r'<<\s*"VERDICT",\s*(\d+),\s*"([A-Z]+)"(?:,\s*(.*?))?\s*>>', re.S)
-_COVER = re.compile(r"^<(\w+) line (\d+), col (\d+) to line (\d+), col (\d+) of module (\w+)>: (\d+):(\d+)", re.M)
+_COVER = re.compile(r"^<(\w+) line (\d+), col (\d+) to line (\d+), col (\d+) of module (\w+)(?: \([\d ]+\))?>: (\d+):(\d+)", re.M)
 
 
 class TlcResult:
